@@ -296,3 +296,44 @@ theorem row2 {i n m : Int} (hi0 : 0 ≤ i) (hi : i < n) (hm : 0 ≤ m) :
   omega
 
 end Pyunicorn.Access
+
+/-! ### extended reals (round 3) -/
+namespace Pyunicorn.Access
+
+theorem sgn_nonneg {a : Rat} (h : 0 ≤ a) : sgn a = 0 ∨ sgn a = 1 := by
+  unfold sgn
+  split
+  · rename_i hlt; exact absurd h (Rat.not_le.mpr hlt)
+  · split <;> simp
+
+theorem XR.sub_notNeg (m x : XR) (hmx : m.isNan = true ∨ x.isNan = true ∨ XR.le m x = true) :
+    (XR.sub x m).notNeg = true := by
+  cases x <;> cases m <;> simp_all [XR.sub, XR.notNeg, XR.le, XR.isNan]
+  rename_i a b
+  exact (Rat.le_iff_sub_nonneg b a).mp hmx
+
+theorem XR.mul_notNeg (s d : XR) (hs : s.notNeg = true) (hd : d.notNeg = true) :
+    (XR.mul s d).notNeg = true := by
+  cases s with
+  | nan => cases d <;> simp [XR.mul, XR.notNeg]
+  | ninf => simp [XR.notNeg] at hs
+  | pinf =>
+    cases d with
+    | nan => simp [XR.mul, XR.notNeg]
+    | ninf => simp [XR.notNeg] at hd
+    | pinf => simp [XR.mul, XR.notNeg]
+    | fin b =>
+      have hb : 0 ≤ b := by simpa [XR.notNeg] using hd
+      rcases sgn_nonneg hb with h | h <;> simp [XR.mul, h, XR.notNeg]
+  | fin a =>
+    have ha : 0 ≤ a := by simpa [XR.notNeg] using hs
+    cases d with
+    | nan => simp [XR.mul, XR.notNeg]
+    | ninf => simp [XR.notNeg] at hd
+    | pinf => rcases sgn_nonneg ha with h | h <;> simp [XR.mul, h, XR.notNeg]
+    | fin b =>
+      have hb : 0 ≤ b := by simpa [XR.notNeg] using hd
+      simp only [XR.mul, XR.notNeg, decide_eq_true_eq]
+      exact Rat.mul_nonneg ha hb
+
+end Pyunicorn.Access
